@@ -9,13 +9,22 @@ Obs == JsonDeserialize(IOEnv.OBS)
 VARIABLE i
 TraceInit == i = 1
 CaseOf(r) == [fam |-> r.c.fam, op |-> r.c.op, form |-> r.c.form, u0 |-> U(r.c.u0.base, r.c.u0.pfx), u1 |-> U(r.c.u1.base, r.c.u1.pfx),
-              rs |-> r.c.rs, shape |-> r.c.shape, part |-> r.c.part]
-ObsOf(r) == [k |-> r.obs.k, exc |-> r.obs.exc, unit |-> U(r.obs.unit.base, r.obs.unit.pfx), v |-> r.obs.v]
+              rs |-> r.c.rs, shape |-> r.c.shape, part |-> r.c.part, dt |-> r.c.dt,
+              chain |-> [j \in DOMAIN r.c.chain |-> [r |-> r.c.chain[j].r, v |-> U(r.c.chain[j].v.base, r.c.chain[j].v.pfx)]]]
+StepObs(o) == [k |-> o.k, exc |-> o.exc, unit |-> U(o.unit.base, o.unit.pfx), v |-> o.v, srcunit |-> U(o.srcunit.base, o.srcunit.pfx), srcv |-> o.srcv]
+ObsOf(r) == IF r.c.fam = "chain" THEN [steps |-> [j \in DOMAIN r.obs.steps |-> StepObs(r.obs.steps[j])]]
+            ELSE [k |-> r.obs.k, exc |-> r.obs.exc, unit |-> U(r.obs.unit.base, r.obs.unit.pfx), v |-> r.obs.v]
+\* chains: the failing step (0 = none), its route and the routes before it
+BadStep(cc, o) == IF cc.fam = "chain" THEN FirstBad(cc, o) ELSE 0
+RouteName(s) == IF s.v.base = "" THEN s.r ELSE s.r \o ":" \o UName(s.v)
 Describe(cc, o, clause) ==
   [i |-> i, clause |-> clause, fam |-> cc.fam, op |-> cc.op, form |-> cc.form, shape |-> cc.shape, part |-> cc.part,
    left |-> UName(cc.u0), right |-> UName(cc.u1), left_base |-> cc.u0.base, right_base |-> cc.u1.base,
    left_kind |-> Kind(cc.u0), right_kind |-> Kind(cc.u1), same_scale |-> SameScale(cc.u0, cc.u1),
-   left_kelvin_sized |-> KelvinSized(cc.u0), observed |-> o, model |-> Outcome(cc)]
+   left_kelvin_sized |-> KelvinSized(cc.u0), observed |-> o, model |-> Outcome(cc), dt |-> cc.dt,
+   step |-> BadStep(cc, o),
+   route |-> IF BadStep(cc, o) = 0 THEN "" ELSE cc.chain[BadStep(cc, o)].r,
+   routes |-> [j \in DOMAIN cc.chain |-> RouteName(cc.chain[j])]]
 Step(r) ==
   LET cc == CaseOf(r)
       o == ObsOf(r)
